@@ -126,13 +126,13 @@ MayCallStar(DD, front, seen) ==
     LET nxt == UNION {MayCall(DD, m) : m \in front} \ seen IN
     IF nxt = {} THEN seen ELSE MayCallStar(DD, nxt, seen \cup nxt)
 
-\* KF:C15.comprehension-after-nested-scope -- the package raises NameError (the oracle says
-\* otherwise) and the element evaluates, directly or through its callees, a formula in which a
+\* KF:C15.comprehension-after-nested-scope -- the package raises NameError (the oracle and
+\* the live model say otherwise) and the element evaluates, directly or through its callees, a formula in which a
 \* global name stands inside a list/set/dict comprehension that follows a nested function or
 \* lambda (Python >= 3.12: should_replace, transformer.py:190-196, must look the name up in
 \* the symbol table of the ENCLOSING scope; it used to step back to the previous table)
-KFCompScope(DD, n, v, exp) ==
-    /\ v # exp /\ v = ErrName
+KFCompScope(DD, n, v, exp, live) ==
+    /\ v # exp /\ v = ErrName /\ live = exp
     /\ \E m \in MayCallStar(DD, {n}, {n}) : HasSyn(DD, m, "compscope")
 
 \* KF:C15.parenthesised-global-name -- the package does not compile (SyntaxError) and some
@@ -142,9 +142,9 @@ KFParen(exported, imported, errkind) ==
     /\ exported /\ ~imported /\ errkind = "SyntaxError"
     /\ \E i \in 1..Len(Syn) : Syn[i][3] = "paren"
 
-EqOracleLabel(DD, n, v, exp) ==
+EqOracleLabel(DD, n, v, exp, live) ==
     IF PackageEqOracle(v, exp) THEN {}
-    ELSE IF KFCompScope(DD, n, v, exp) THEN {"KF:C15.comprehension-after-nested-scope"}
+    ELSE IF KFCompScope(DD, n, v, exp, live) THEN {"KF:C15.comprehension-after-nested-scope"}
     ELSE {"C15.PackageEqOracle"}
 
 QueryLabels(DD, e) ==
@@ -154,7 +154,7 @@ QueryLabels(DD, e) ==
         exp == Den(DD, n) IN
       (IF PackageEqOracle(e.pkg, exp)
              \/ ~PrintT(<<"INFO", Tag, "element", n, "package", e.pkg, "oracle", exp, "live", e.live>>)
-       THEN {} ELSE EqOracleLabel(DD, n, e.pkg, exp))
+       THEN {} ELSE EqOracleLabel(DD, n, e.pkg, exp, e.live))
       \cup Lbl(LiveEqOracle(e.live, exp)
           \/ ~PrintT(<<"INFO", Tag, "element", n, "live", e.live, "oracle", exp>>),
           "MACH.LiveDiffersFromOracle")
@@ -163,7 +163,7 @@ QueryLabels(DD, e) ==
             THEN Lbl(CachedUncachedAgree(e.pkg, e.pkgf)
                      \/ ~PrintT(<<"INFO", Tag, "element", n, "package", e.pkg, "flipped", e.pkgf>>),
                      "C15.CachedUncachedAgree")
-                 \cup EqOracleLabel(DD, n, e.pkgf, exp)
+                 \cup EqOracleLabel(DD, n, e.pkgf, exp, e.live)
                  \cup Lbl(PackageStable(e.pkgf, e.pkgf2), "C15.PackageStable")
             ELSE {})
 
